@@ -48,6 +48,9 @@ pub struct ParCase {
     /// run (not the reference call) is the first use of whatever process-global state exists
     #[serde(default)]
     pub ref_after: bool,
+    /// shape of the stale-memory garbage during the run: 0 mixed, 1 all-ones, 2 all-zero
+    #[serde(default)]
+    pub poison_mode: u8,
 }
 
 #[derive(Clone, Debug, PartialEq, Eq, Serialize, Deserialize)]
@@ -158,6 +161,7 @@ pub fn execute(case: &ParCase, spec: &SchedSpec, yield_mode: u8) -> RunResult {
     let shared = Arc::new(case.clone());
     let out2 = out.clone();
     worlds::set_poison_all(case.poison_run);
+    worlds::set_poison_mode_all(case.poison_mode);
     if yield_mode == sched::YIELD_NONE && matches!(spec.kind, SchedKind::Sequential) && case.tasks.len() > 1 {
         sched::set_lib_sites(0, 1); // the sequential re-run
     } else {
@@ -186,6 +190,7 @@ pub fn execute(case: &ParCase, spec: &SchedSpec, yield_mode: u8) -> RunResult {
     let trace = sched::run_world(spec, ntasks, yield_mode, case.stack_kib, body);
     sched::set_lib_sites(0, 1);
     worlds::set_poison_all(None);
+    worlds::set_poison_mode_all(0);
     let outcomes = out.lock().unwrap().clone();
     RunResult { outcomes, trace }
 }
@@ -318,8 +323,13 @@ pub fn run_case(case: &ParCase, stats: &mut Stats, miri: bool) -> Result<ParInfo
                 stats.inc("reach.hammer_calls");
                 None
             } else if prop == "C08" {
-                // tier accounting on corrupted bytes may itself panic (cleanly)
-                let t = catch(|| with_world!(world as usize, W, W::tier(is64, &inp.int, &inp.frac, inp.exp))).ok();
+                // tier accounting on corrupted bytes may itself panic (cleanly); it doubles the
+                // work, so the Miri engine (where every instruction is expensive) goes without
+                let t = if miri {
+                    None
+                } else {
+                    catch(|| with_world!(world as usize, W, W::tier(is64, &inp.int, &inp.frac, inp.exp))).ok()
+                };
                 let mut f = Fp::new();
                 f.push(world as u64);
                 f.push(is64 as u64);
@@ -361,6 +371,10 @@ pub fn run_case(case: &ParCase, stats: &mut Stats, miri: bool) -> Result<ParInfo
                     shape::KIND_NAMES[si.kind as usize].min(shape::KIND_NAMES[sf.kind as usize]),
                     worlds::TIER_NAMES[tier as usize]
                 ));
+                if inp.family.starts_with("limb_boundary") || inp.family.starts_with("structured") {
+                    let fam = inp.family.split('+').next().unwrap_or("");
+                    stats.inc(&format!("family.{}.{}", fam, worlds::TIER_NAMES[tier as usize]));
+                }
                 if tier.is_slow() && !miri {
                     let ex = with_world!(world as usize, W, W::slow_exponent(is64, &inp.int, &inp.frac, inp.exp));
                     let mag = ex.unsigned_abs();
@@ -493,6 +507,11 @@ pub fn run_case(case: &ParCase, stats: &mut Stats, miri: bool) -> Result<ParInfo
     if prop == "C08" && !miri && case.poison_run.is_some() {
         let mut again = case.clone();
         again.poison_run = case.poison_run.map(|p| p.rotate_left(17) ^ 0xA5A5_5A5A_0F0F_F0F1);
+        // and a differently *shaped* garbage: all-ones / all-zero / mixed
+        again.poison_mode = match case.poison_mode {
+            0 => 1 + (case.poison_run.unwrap_or(0) >> 7 & 1) as u8,
+            _ => 0,
+        };
         let second = execute(&again, &again.sched, again.yield_mode);
         stats.inc("reach.c08_second_execution_over_different_stale_memory");
         for (t, ops) in case.tasks.iter().enumerate() {
@@ -615,6 +634,7 @@ fn gen_hammer_case(seed: u64, cfg: &GenCfg) -> ParCase {
         lib_every: *r.pick(&[1u32, 3, 7]),
         hammer: true,
         ref_after: r.chance(1, 2),
+        poison_mode: 0,
     }
 }
 
@@ -756,6 +776,7 @@ pub fn gen_case(seed: u64, cfg: &GenCfg) -> ParCase {
         lib_every: *r.pick(&[1u32, 1, 2, 5, 16]),
         hammer: false,
         ref_after: r.chance(1, 2),
+        poison_mode: if cfg.miri { 0 } else { *r.pick(&[0u8, 0, 0, 0, 1, 2]) },
     })
 }
 
@@ -898,12 +919,25 @@ pub fn gen_case_c08(seed: u64, cfg: &GenCfg) -> ParCase {
             }
         } else {
             let hint64 = r.chance(1, 2);
-            let base = gen::draw_input(&mut r, mix, hint64, cfg.thorough && !cfg.miri);
-            let mut log = Vec::new();
-            corrupt(&base, &mut r, &mut log)
+            // (expensive under Miri: a tenth of the quick budget, a fifth of the thorough one)
+            let deep = r.chance(1, if cfg.miri { if cfg.thorough { 5 } else { 10 } } else { 40 });
+            let base = if deep {
+                // a valid request that drives the rarest big-integer paths (long multiplication
+                // with runs of zero limbs): the small Miri budget should not be left to chance
+                gen::limb_boundary_deep(&mut r)
+            } else {
+                gen::draw_input(&mut r, mix, hint64, cfg.thorough && !cfg.miri)
+            };
+            if deep || r.chance(1, 5) {
+                // "all byte strings" includes the valid ones: no corruption at all
+                base
+            } else {
+                let mut log = Vec::new();
+                corrupt(&base, &mut r, &mut log)
+            }
         };
         let is64 = r.chance(1, 2);
-        let (si, sf) = if r.chance(1, 2) {
+        let (si, sf) = if r.chance(1, 2) || (cfg.miri && inp.digits() > 100) {
             (ShapeSpec::slice(), ShapeSpec::slice())
         } else {
             // segmented / relocating SimIter: an out-of-bounds read cannot hide inside one big buffer
@@ -937,6 +971,7 @@ pub fn gen_case_c08(seed: u64, cfg: &GenCfg) -> ParCase {
         lib_every: 1,
         hammer: false,
         ref_after: false,
+        poison_mode: if cfg.miri { 0 } else { *r.pick(&[0u8, 0, 1, 2]) },
     }
 }
 
@@ -1009,6 +1044,11 @@ impl Shrink for ParCase {
         if self.fill.is_some() {
             let mut c = self.clone();
             c.fill = None;
+            out.push(c);
+        }
+        if self.poison_mode != 0 {
+            let mut c = self.clone();
+            c.poison_mode = 0;
             out.push(c);
         }
         if self.lib_mask != 0 {
